@@ -12,8 +12,11 @@
    multi-byte character, so cutting the bytes at them and decoding the line is what the reader does
    character by character.
 
-   Domain: every line the DEBUGGER reads is valid UTF-8 (the reader panics otherwise: `expect("uh
-   oh")`) and no line leaves the process (`sudo`); otherwise the result is [None]. *)
+   Bytes that are not UTF-8 reach the parser as U+FFFD ([Utf8.decode_lossy]: the byte that breaks a
+   sequence is read again, so cutting at the separators first and decoding the line afterwards is still
+   what the reader does).
+
+   Domain: no line leaves the process (`sudo`); otherwise the result is [None]. *)
 From Coq Require Import List NArith ZArith Bool.
 From Lace Require Import Word Machine Isa Vm Asm Dbg DebugText.
 From Lace Require Utf8.
@@ -34,15 +37,11 @@ Fixpoint fetch (fuel : nat) (inp : list N) : fetched :=
       match Cmd.stdin_read inp with
       | (None, rest) => FEof rest
       | (Some raw, rest) =>
-          match Utf8.decode raw with
-          | None => FLeave
-          | Some line =>
-              match Cmd.parse_line line with
-              | None => fetch fuel' rest
-              | Some (Cmd.Ok c) => FCmd (conv_cmd c) rest
-              | Some (Cmd.Err _) => FCmd CBad rest
-              | Some _ => FLeave
-              end
+          match Cmd.parse_line (Utf8.decode_lossy raw) with
+          | None => fetch fuel' rest
+          | Some (Cmd.Ok c) => FCmd (conv_cmd c) rest
+          | Some (Cmd.Err _) => FCmd CBad rest
+          | Some _ => FLeave
           end
       end
   end.
